@@ -20,6 +20,10 @@ func runC08(c *Ctx) {
 	c.rule("C08-R7", "PAIR: every Lock/RLock of the shared providers (pkg/database, pkg/redis, pkg/mongodb mocks) and of pkg/interpreter is released on every path to a return: one request cannot wedge the provider for all others")
 	c.Sites["C08-R7#acquire-sites"] = lockReleaseAudit(c, "C08-R7", []string{"pkg/database", "pkg/redis", "pkg/mongodb", interpPkg})
 	c.floor("C08-R7", 20)
+	// ---- R8 shared slices are not extended in place for one request / one registration
+	c.rule("C08-R8", "ESC/alias (whole module): no `append` on a slice held in a struct field or package variable keeps its result anywhere but in that same place: what one request, route or compilation appended is never written into spare capacity that the next one overwrites (and two goroutines never write the same spare slot)")
+	c.Sites["C08-R8#appends-on-shared-slices"] = appendAliasAudit(c, "C08-R8", c.modulePkgs(), "")
+	c.floor("C08-R8", 40)
 	// ---- R1 shared write-set
 	c.rule("C08-R1", "WRS: no function of pkg/interpreter reachable from a request root stores to, updates a map of, or atomically modifies a field of the shared Interpreter / TypeChecker / ModuleResolver objects, defines or sets variables in Interpreter.globalEnv, or writes a package-level variable, unless a mutex of the owning object is held at that point")
 	roots := []string{"Interpreter.ExecuteRoute", "Interpreter.ExecuteCommand", "Interpreter.ExecuteEventHandler", "Interpreter.ExecuteQueueWorker"}
